@@ -193,13 +193,26 @@ func randomRun(cfgPath string, seed int64, nbeh int, outPath string) error {
 				evp = 3
 			}
 			if rng.Intn(evp) == 0 && len(st.Pkrel) > 0 {
-				v := st.Pkrel[rng.Intn(len(st.Pkrel))]
-				val := st.Val[v-1]
-				if val.Ex && val.Status != 0 && !st.Sinfo[v-1].Tomb { // anything else makes the real BeginBlock panic (modelled as halt; kept rare)
+				// one or (sometimes) two pieces of evidence, against different validators: a second one against
+				// the same validator would hit the tombstone and panic the real BeginBlock (modelled as halt)
+				nev := 1
+				if rng.Intn(4) == 0 {
+					nev = 2
+				}
+				used := map[int]bool{}
+				for e := 0; e < nev; e++ {
+					v := st.Pkrel[rng.Intn(len(st.Pkrel))]
+					val := st.Val[v-1]
+					if used[v] || !val.Ex || val.Status == 0 || st.Sinfo[v-1].Tomb { // anything else makes the real BeginBlock panic (kept out)
+						continue
+					}
+					used[v] = true
 					age := []int64{0, c.MaxEvAge, c.MaxEvAge + 1, rng.Int63n(c.MaxEvAge + 2)}[rng.Intn(4)]
 					cur := val.Tokens / c.PR
 					power := []int64{cur, cur + 1, cur * 3, 1, 0, cur / 2}[rng.Intn(6)]
-					evs = append(evs, rec{"v": v, "age": age, "hback": 1 + rng.Intn(2), "power": power})
+					// infraction height: the previous blocks, the current one, or (invalid) one in the future
+					hback := []int{1, 1, 2, 0, -2}[rng.Intn(5)]
+					evs = append(evs, rec{"v": v, "age": age, "hback": hback, "power": power})
 				}
 			}
 			dt := []int64{0, 1, 1, 2, 5, c.UnstakeTime}[rng.Intn(6)]
